@@ -36,9 +36,9 @@ WtAbs(co, md, st) ==
 Overlapping(e) == e.pos \cap e.neg # {}
 
 BaseDir(dir, tk, re, ce, st) ==
-  CASE dir = "row"   -> RowDiffNaN(re, R(RowBase(tk, re, ce, st)))
-    [] dir = "col"   -> ColDiffNaN(ce, R(ColBase(tk, re, ce, st)))
-    [] dir = "table" -> R(TableBase(tk, re, ce, st))
+  CASE dir = "row"   -> RowDiffNaN(re, RSt(RowBase(tk, re, ce, st), st))
+    [] dir = "col"   -> ColDiffNaN(ce, RSt(ColBase(tk, re, ce, st), st))
+    [] dir = "table" -> RSt(TableBase(tk, re, ce, st), st)
 
 PropDir(dir, tk, re, ce) ==
   CASE dir = "row" -> RowProp(tk, re, ce) [] dir = "col" -> ColProp(tk, re, ce)
@@ -49,7 +49,7 @@ VarDir(dir, tk, re, ce) ==
       B == BaseDir(dir, tk, re, ce, WS)
   IN  IF IsNaN(p) \/ ~IsFinite(B) \/ B[1] = 0 THEN NaN
       ELSE IF Overlapping(re) \/ Overlapping(ce) THEN AnyVal
-      ELSE Sub(Div(R(WtAbs(Co(tk, re, ce), Md("sel", "sel"), WS)), B), Sq(p))
+      ELSE Sub(Div(RSt(WtAbs(Co(tk, re, ce), Md("sel", "sel"), WS), WS), B), Sq(p))
 
 SE2Dir(dir, tk, re, ce) ==
   LET v == VarDir(dir, tk, re, ce) IN
@@ -61,13 +61,13 @@ SE2M(dir, tk, RE, CE) == Mat(Len(RE), Len(CE), LAMBDA i, j : SE2Dir(dir, tk, RE[
 \* strand: table direction only
 SVar(tk, re) ==
   LET p == SProp(tk, re)
-      B == R(TableBase(tk, re, NoEl, WS))
+      B == RSt(TableBase(tk, re, NoEl, WS), WS)
   IN  IF IsNaN(p) \/ B[1] = 0 THEN NaN
       ELSE IF Overlapping(re) THEN AnyVal
-      ELSE Sub(Div(R(WtAbs(Co(tk, re, NoEl), Md("sel", "sel"), WS)), B), Sq(p))
+      ELSE Sub(Div(RSt(WtAbs(Co(tk, re, NoEl), Md("sel", "sel"), WS), WS), B), Sq(p))
 SSE2(tk, re) ==
   LET v == SVar(tk, re) IN
-  IF v = AnyVal THEN AnyVal ELSE Div(v, R(TableBase(tk, re, NoEl, WS)))
+  IF v = AnyVal THEN AnyVal ELSE Div(v, RSt(TableBase(tk, re, NoEl, WS), WS))
 SVarV(tk, RE) == Vec(Len(RE), LAMBDA i : SVar(tk, RE[i]))
 SSE2V(tk, RE) == Vec(Len(RE), LAMBDA i : SSE2(tk, RE[i]))
 
@@ -101,12 +101,13 @@ ZScoreD(def, tk, re, ce) ==
   LET z == ZTerms(tk, re, ce) IN
   IF def THEN <<0, NaN>>
   ELSE IF IsNaN(z.c) \/ IsNaN(z.r) \/ IsNaN(z.cc) \/ IsNaN(z.t) THEN <<0, NaN>>
-  ELSE LET c == z.c[1]  r == z.r[1]  cc == z.cc[1]  t == z.t[1]
+  ELSE \* integer sums of key weights; Z2 is homogeneous of degree 1 in the weights
+       LET c == IntAt(z.c, WS)  r == IntAt(z.r, WS)  cc == IntAt(z.cc, WS)  t == IntAt(z.t, WS)
            num == c * t - r * cc
            den == r * cc * (t - r) * (t - cc)
        IN  IF t = 0 THEN <<0, NaN>>
            ELSE IF den = 0 THEN <<0, AnyVal>>
-           ELSE <<Sign(num), Norm(<<num * num * t, den>>)>>
+           ELSE <<Sign(num), Mul(Norm(<<num * num, den>>), RSt(t, WS))>>
 
 ZScore(tk, re, ce) == ZScoreD(Defective(tk), tk, re, ce)
 
@@ -125,7 +126,8 @@ ChiSq(tk) ==
         LET re == BaseEls(DimR)[i]  ce == BaseEls(DimC)[j]
             c == Count(tk, re, ce, WS)
             r == RowBase(tk, re, ce, WS)  cc == ColBase(tk, re, ce, WS)
-        IN  Div(Sq(Sub(R(c), Div(R(r * cc), R(T)))), Div(R(r * cc), R(T)))
+            e == Div(Mul(RSt(r, WS), RSt(cc, WS)), RSt(T, WS))
+        IN  Div(Sq(Sub(RSt(c, WS), e)), e)
   IN  SumSeq(<<cell(1, 1), cell(1, 2), cell(2, 1), cell(2, 2)>>)
 
 \* theorem checked by TLC on 2 x 2 categorical tables: every z squared is the
@@ -179,11 +181,16 @@ RankValue(d, cnt, r) ==
       cumLE(x) == MapThenSumSet(LAMBDA p : IF ValOf(d, p) <= x THEN cnt[p] ELSE 0, Valued(d))
   IN  Min({x \in vals : cumLE(x) >= r})
 
-MedianOf(d, cnt) ==
-  LET n == MapThenSumSet(LAMBDA p : cnt[p], Valued(d)) IN
-  IF n = 0 THEN NaN
-  ELSE IF n % 2 = 1 THEN R(RankValue(d, cnt, (n + 1) \div 2))
-  ELSE Div(R(RankValue(d, cnt, n \div 2) + RankValue(d, cnt, n \div 2 + 1)), R(2))
+\* cntK[p]: integer sum of key weights (scale WScale(WS)).  The statement defines the
+\* median for integer counts only: with a fractional count anywhere it is left open.
+MedianOf(d, cntK) ==
+  LET D == WScale(WS) IN
+  IF \E p \in Valued(d) : cntK[p] % D # 0 THEN AnyVal
+  ELSE LET cnt == [p \in Valued(d) |-> cntK[p] \div D]
+           n == MapThenSumSet(LAMBDA p : cnt[p], Valued(d)) IN
+       IF n = 0 THEN NaN
+       ELSE IF n % 2 = 1 THEN R(RankValue(d, cnt, (n + 1) \div 2))
+       ELSE Div(R(RankValue(d, cnt, n \div 2) + RankValue(d, cnt, n \div 2 + 1)), R(2))
 
 ScaleMedian(tk, dv, v) ==
   IF IsDiff(v) THEN AnyVal
@@ -194,7 +201,7 @@ VecMargin(tk, dv, v) ==
   IF dv = DimR THEN RowBase(tk, v, AnyEl(DimC), WS) ELSE ColBase(tk, AnyEl(DimR), v, WS)
 ScaleSE2(tk, dv, v) ==
   LET var == ScaleVar(tk, dv, v) IN
-  IF var = AnyVal THEN AnyVal ELSE Div(var, R(VecMargin(tk, dv, v)))
+  IF var = AnyVal THEN AnyVal ELSE Div(var, RSt(VecMargin(tk, dv, v), WS))
 
 ScaleOut(tk, dv, E, f(_, _, _), sqrt) ==
   IF ~HasVals(OppDim(dv)) THEN NoneV
@@ -268,7 +275,7 @@ SShareV(tk, RE) ==
 (* whatever their column answer (valid or missing).  NaN for subtotals.    *)
 (***************************************************************************)
 Uncond(tk, re, ce) ==
-  Div(R(Wt(Co(tk, re, ce), Md("sel", "any"), WS)), R(Wt(Co(tk, re, ce), Md("own", "any"), WS)))
+  Div(RSt(Wt(Co(tk, re, ce), Md("sel", "any"), WS), WS), RSt(Wt(Co(tk, re, ce), Md("own", "any"), WS), WS))
 ColIndex(tk, re, ce) ==
   IF IsIns(re) \/ IsIns(ce) THEN NaN
   ELSE Mul(R(100), Div(PlainColProp(tk, re, ce), Uncond(tk, re, ce)))
